@@ -31,14 +31,16 @@ PROP = "C18"
 STEP_TIMEOUT = 25.0
 
 
-def make_model(directory):
+def make_model(directory, version=1):
+    """version 2 differs in one constant (c0), so sources, library names and values all differ"""
     d = probe.make_def("vpbuild", ["volume", ""])
+    d["c0"] = float(version)
     return probe.write_c(d, directory)
 
 
-def reference(work, modelpath):
-    """Solitary load in a fresh cache with the normal compiler: value and final file name."""
-    cache = os.path.join(work, "refcache")
+def reference(work, modelpath, tag=""):
+    """Solitary load in a fresh cache with the normal compiler: value, final file name, size."""
+    cache = os.path.join(work, "refcache" + tag)
     os.makedirs(cache)
     code = ("import json, numpy as np\nfrom sasmodels import core\n"
             "from sasmodels.direct_model import call_kernel\n"
@@ -54,7 +56,7 @@ def reference(work, modelpath):
     names = [f for f in os.listdir(cache) if f.endswith(".so")]
     if len(names) != 1:
         raise vlib.Machinery("reference cache holds %s" % names)
-    return value, names[0]
+    return value, names[0], os.path.getsize(os.path.join(cache, names[0]))
 
 
 class Sched:
@@ -154,94 +156,165 @@ class Sched:
                     return None
         return None
 
+    def _one_step(self, st):
+        """Execute one schedule step on the real processes; False if a process did not get there."""
+        p, label, kill = st["proc"], st["label"], st["kill"]
+        ok = True
+        if label == "idle":
+            self.spawn(p)
+            ok = self.wait_new(p, "start.reached") is not None
+            if ok:
+                self.release(p, "start")
+                ok = self.wait_new(p) is not None
+        elif label in ("lookup", "writesrc", "publish", "unlink", "dlopen", "ccbegin", "cchalf", "ccend"):
+            if (p + "." + label + ".reached") not in self.reached(p):
+                ok = self.wait_new(p, label + ".reached") is not None
+            if ok:
+                self.release(p, label)
+                if label == "ccend":
+                    ok = self.wait_new(p, "ccexit.reached") is not None
+                    if ok:
+                        ok = self.wait_new(p) is not None
+                elif label in ("ccbegin", "cchalf"):
+                    ok = self.wait_new(p, ("cchalf" if label == "ccbegin" else "ccend") + ".reached") is not None
+                else:
+                    ok = self.wait_new(p) is not None
+        elif label == "crash":
+            pr = self.procs[p]
+            ccpid = self.cc_pid(p)
+            began = "ccbegin" in self.released.get(p, set())
+            done = os.path.exists(os.path.join(self.ctl, p + ".ccexit.reached"))
+            try:
+                os.kill(pr.pid, signal.SIGKILL)
+            except OSError:
+                pass
+            pr.wait()
+            if ccpid and not done and (kill or not began):
+                try:
+                    os.kill(ccpid, signal.SIGKILL)
+                except OSError:
+                    pass
+                time.sleep(0.05)
+        elif label == "orphan":
+            for point in ("cchalf", "ccend"):
+                self.release(p, point)
+            ok = self.wait_new(p, "ccexit.reached") is not None
+        return ok
+
+    def classify(self, value):
+        return "ok" if value == self.ref else "wrong-value"
+
+    def results(self):
+        results = {}
+        for p in ("p1", "p2", "p3", "p4"):
+            pr = self.procs.get(p)
+            if pr is None:
+                results[p] = "idle"
+                continue
+            rf = os.path.join(self.ctl, p + ".result")
+            t0 = time.time()
+            while pr.poll() is None and time.time() - t0 < 20 and not self.stuck:
+                time.sleep(0.01)
+            if os.path.exists(rf):
+                r = json.load(open(rf))
+                if r["status"] == "ok":
+                    results[p] = self.classify(r["value"])
+                else:
+                    results[p] = "error"
+                    self.events[0].setdefault("errors", {})[p] = r.get("error", "")[:500]
+            elif pr.poll() is not None and pr.returncode == -signal.SIGKILL:
+                results[p] = "dead"
+            else:
+                results[p] = "no-result"
+        return results
+
+    def cleanup(self):
+        for pr in self.procs.values():
+            if pr.poll() is None:
+                try:
+                    os.killpg(pr.pid, signal.SIGKILL)
+                except OSError:
+                    pass
+        # stray compilers
+        for f in os.listdir(self.ctl):
+            if f.endswith(".reached") and ".cc" in f:
+                try:
+                    os.kill(int(open(os.path.join(self.ctl, f)).read()), signal.SIGKILL)
+                except (OSError, ValueError):
+                    pass
+        shutil.rmtree(self.dir, ignore_errors=True)
+
+    def special_step(self, st):
+        return False
+
+    def end_event(self, results):
+        return {"tid": self.tid, "ev": "end", "results": results, "stuck": self.stuck}
+
     def run(self):
         try:
             for st in self.steps:
-                p, label, kill = st["proc"], st["label"], st["kill"]
-                ok = True
-                if label == "idle":
-                    self.spawn(p)
-                    ok = self.wait_new(p, "start.reached") is not None
-                    if ok:
-                        self.release(p, "start")
-                        ok = self.wait_new(p) is not None
-                elif label in ("lookup", "writesrc", "publish", "unlink", "dlopen", "ccbegin", "cchalf", "ccend"):
-                    if (p + "." + label + ".reached") not in self.reached(p):
-                        ok = self.wait_new(p, label + ".reached") is not None
-                    if ok:
-                        self.release(p, label)
-                        if label == "ccend":
-                            ok = self.wait_new(p, "ccexit.reached") is not None
-                            if ok:
-                                ok = self.wait_new(p) is not None
-                        elif label in ("ccbegin", "cchalf"):
-                            ok = self.wait_new(p, ("cchalf" if label == "ccbegin" else "ccend") + ".reached") is not None
-                        else:
-                            ok = self.wait_new(p) is not None
-                elif label == "crash":
-                    pr = self.procs[p]
-                    ccpid = self.cc_pid(p)
-                    began = "ccbegin" in self.released.get(p, set())
-                    done = os.path.exists(os.path.join(self.ctl, p + ".ccexit.reached"))
-                    try:
-                        os.kill(pr.pid, signal.SIGKILL)
-                    except OSError:
-                        pass
-                    pr.wait()
-                    if ccpid and not done and (kill or not began):
-                        try:
-                            os.kill(ccpid, signal.SIGKILL)
-                        except OSError:
-                            pass
-                        time.sleep(0.05)
-                elif label == "orphan":
-                    for point in ("cchalf", "ccend"):
-                        self.release(p, point)
-                    ok = self.wait_new(p, "ccexit.reached") is not None
-                if not ok:
-                    self.stuck = "%s before/after %s" % (p, label)
-                    break
+                if not self.special_step(st):
+                    if not self._one_step(st):
+                        self.stuck = "%s before/after %s" % (st["proc"], st["label"])
+                        break
                 final, npp = self.observe()
-                self.events.append({"tid": self.tid, "ev": "step", "proc": p, "label": label,
-                                    "kill": bool(kill), "final": final, "nprivpartial": npp})
-            results = {}
-            for p in ("p1", "p2", "p3", "p4"):
-                pr = self.procs.get(p)
-                if pr is None:
-                    results[p] = "idle"
-                    continue
-                rf = os.path.join(self.ctl, p + ".result")
-                t0 = time.time()
-                while pr.poll() is None and time.time() - t0 < 20 and not self.stuck:
-                    time.sleep(0.01)
-                if os.path.exists(rf):
-                    r = json.load(open(rf))
-                    if r["status"] == "ok":
-                        results[p] = "ok" if r["value"] == self.ref else "wrong-value"
-                    else:
-                        results[p] = "error"
-                        self.events[0].setdefault("errors", {})[p] = r.get("error", "")[:500]
-                elif pr.poll() is not None and pr.returncode == -signal.SIGKILL:
-                    results[p] = "dead"
-                else:
-                    results[p] = "no-result"
-            self.events.append({"tid": self.tid, "ev": "end", "results": results, "stuck": self.stuck})
+                self.events.append({"tid": self.tid, "ev": "step", "proc": st["proc"], "label": st["label"],
+                                    "kill": bool(st["kill"]), "v": st.get("v", 0), "final": final, "nprivpartial": npp})
+            self.events.append(self.end_event(self.results()))
         finally:
-            for pr in self.procs.values():
-                if pr.poll() is None:
-                    try:
-                        os.killpg(pr.pid, signal.SIGKILL)
-                    except OSError:
-                        pass
-            # stray compilers
-            for f in os.listdir(self.ctl):
-                if f.endswith(".reached") and ".cc" in f:
-                    try:
-                        os.kill(int(open(os.path.join(self.ctl, f)).read()), signal.SIGKILL)
-                    except (OSError, ValueError):
-                        pass
-            shutil.rmtree(self.dir, ignore_errors=True)
+            self.cleanup()
         return self.events
+
+
+class PipeSched(Sched):
+    """Sched + Edit steps (growth: Pipeline.tla): the definition file is rewritten between process
+    steps; one final library name per source version."""
+
+    def __init__(self, tid, steps, work):
+        self.mdir = os.path.join(work, "pm%d" % tid)
+        os.makedirs(self.mdir)
+        # library names embed the hash of the generated source, which names the definition file's
+        # path: the solitary references are taken at this schedule's own path, for both versions
+        refs = {}
+        for v in (2, 1):
+            modelpath = make_model(self.mdir, v)
+            refs[v] = reference(work, modelpath, tag="-%d-v%d" % (tid, v))
+        Sched.__init__(self, tid, steps, work, modelpath, refs[1][0], refs[1][1])
+        self.refs = refs
+        self.t0 = int(time.time()) - 100000
+        os.utime(modelpath, (self.t0, self.t0))
+        self.nedit = 0
+
+    def observe(self):
+        full = (self.refs[1][2], self.refs[2][2])
+        final = {1: "absent", 2: "absent"}
+        npp = 0
+        for f in os.listdir(self.cache):
+            try:
+                size = os.path.getsize(os.path.join(self.cache, f))
+            except OSError:
+                continue
+            hit = [v for v in (1, 2) if f == self.refs[v][1]]
+            if hit:
+                final[hit[0]] = "complete" if size == self.refs[hit[0]][2] else "partial"
+            elif not f.endswith(".c") and size not in full:
+                npp += 1
+        return [final[1], final[2]], npp
+
+    def special_step(self, st):
+        if st["label"] != "edit":
+            return False
+        self.nedit += 1
+        make_model(self.mdir, st["v"])
+        t = self.t0 + 10 * self.nedit
+        os.utime(self.modelpath, (t, t))
+        return True
+
+    def classify(self, value):
+        return "ok1" if value == self.refs[1][0] else "ok2" if value == self.refs[2][0] else "wrong-value"
+
+    def end_event(self, results):
+        return dict(Sched.end_event(self, results), okname=["ok1", "ok2"])
 
 
 def schedules(tier, seed):
@@ -273,6 +346,55 @@ def schedules(tier, seed):
     return head + tail[: n - len(head)]
 
 
+def pipeline(chk, args, work):
+    """Growth beyond C18/C17: Pipeline.tla = Build + edits of the definition file, one cache entry
+    per source version.  Reported under C18 (atomic build is what makes the composition safe)."""
+    thorough = chk.tier == "thorough"
+    r = vlib.tlc_must_pass("Pipeline", "Pipeline.cfg", timeout=1800)
+    chk.add_tlc(r, "Pipeline (Build + Edit, 3 processes, 2 versions)")
+    if r["violated"]:
+        chk.design_violation(r, "Pipeline")
+    w = vlib.tlc("Pipeline", "Pipeline_unhashed.cfg", timeout=600)
+    if w["violated"] != "Coherent":
+        raise vlib.Machinery("vacuity control: Pipeline_unhashed should violate Coherent, got %s" % w["violated"])
+    if args.replay:
+        rp = json.load(open(args.replay))["detail"]["scenario"]
+        if not rp.get("pipeline"):
+            return
+        scheds = [rp["steps"]]
+    else:
+        n = 80 if thorough else 10
+        g = vlib.tlc("PipelineGen", "PipelineGen.cfg", workers=1, simulate="num=%d" % (40 * n), depth=90,
+                     seed=chk.seed, timeout=900)
+        if not g["ok"]:
+            raise vlib.Machinery("PipelineGen failed: %s" % g["error"])
+        scheds, seen = [], set()
+        for b in vlib.parse_printed(g["out"], "BEHAVIOUR"):
+            st = b["steps"]
+            labels = [x["label"] for x in st]
+            k = json.dumps(st)
+            if k in seen or "edit" not in labels or labels.count("idle") < 2 or labels.count("dlopen") < 2:
+                continue
+            seen.add(k)
+            scheds.append(st)
+        scheds.sort(key=lambda st: -(2 * ("crash" in [x["label"] for x in st]) + [x["label"] for x in st].count("ccbegin")))
+        scheds = scheds[:n]
+    with ThreadPoolExecutor(max_workers=max(2, vlib.NCPU // 3)) as ex:
+        results = list(ex.map(lambda kst: PipeSched(1000 + kst[0], kst[1], work).run(), list(enumerate(scheds))))
+    events = [e for evs in results for e in evs]
+    v = vlib.validate_trace("PipelineTrace", events, timeout=1800)
+    chk.cov["traces_validated_against_impl"] += len(scheds)
+    chk.notes["pipeline_schedules"] = len(scheds)
+    for tid, line, clause, detail in v["rejects"]:
+        ev = events[line - 1]
+        chk.violation({"clause": clause, "label": ev.get("label", ev["ev"]), "pipeline": True},
+                      {"scenario": {"pipeline": True, "steps": scheds[tid - 1000]}, "clause": clause, "detail": detail,
+                       "event": ev})
+    for st in scheds:
+        chk.case(["pipeline", st], nontrivial=True,
+                 sample={"pipeline-schedule": ["%s:%s%s" % (x["proc"], x["label"], x["v"] or "") for x in st]})
+
+
 def run(chk, args):
     thorough = chk.tier == "thorough"
     # ---- design level
@@ -290,10 +412,10 @@ def run(chk, args):
         mdir = os.path.join(work, "model")
         os.makedirs(mdir)
         modelpath = make_model(mdir)
-        refvalue, finalname = reference(work, modelpath)
+        refvalue, finalname, _size = reference(work, modelpath)
         if args.replay:
             rp = json.load(open(args.replay))
-            scheds = [rp["detail"]["scenario"]["steps"]]
+            scheds = [] if rp["detail"]["scenario"].get("pipeline") else [rp["detail"]["scenario"]["steps"]]
         else:
             scheds = schedules(chk.tier, chk.seed)
         jobs = [Sched(k + 1, s, work, modelpath, refvalue, finalname) for k, s in enumerate(scheds)]
@@ -315,6 +437,7 @@ def run(chk, args):
             labels = [x["label"] for x in s]
             chk.case(s, nontrivial=(labels.count("ccbegin") >= 2 or "crash" in labels),
                      sample={"schedule": ["%s:%s%s" % (x["proc"], x["label"], "!" if x["kill"] else "") for x in s]})
+        pipeline(chk, args, work)
     finally:
         shutil.rmtree(work, ignore_errors=True)
     chk.cov["rule"] = (
